@@ -591,6 +591,8 @@ func (client *client) connectWithTimeOut() (ok bool) {
 		select {
 		case p := <-client.in:
 			if p == nil {
+				// client.in was closed: the connection ended before CONNECT completed
+				err = io.EOF
 				return
 			}
 			code := codes.Success
